@@ -30,21 +30,21 @@ def St.set (s : St) (sid : Nat) (used : Bool) : St :=
   { s with live := (sid, used) :: s.live.filter (·.1 != sid) }
 def St.del (s : St) (sid : Nat) : St := { s with live := s.live.filter (·.1 != sid) }
 
-def kinds : List String := ["tcp", "fwd", "udp", "shell", "file"]
+def kinds : List String := ["tcp", "fwd", "udp", "shell", "file", "fileup"]
 
 /-- shell and file streams carry ONE command / transfer per handshake -/
-def singleUse (kind : String) : Bool := kind == "shell" || kind == "file"
+def singleUse (kind : String) : Bool := kind == "shell" || kind == "file" || kind == "fileup"
 
 /-- Model answer of one `hs` op (tokens after splitting the line). -/
 def step (s : St) : List String → St × String
   | ["hs", "icmpkx", req, _] =>
     -- both ICMP call sites derive the same key (C03_agree), twice on one session; the echo payload makes
     -- the round trip and never shows in a ciphertext
-    if req.toNat?.isSome then (s, "icmpkx agree 1 1 rt 1 leak 0") else (s, "bad-op")
+    if req.toNat?.isSome then (s, "icmpkx agree 1 1 1 rt 1 leak 0") else (s, "bad-op")
   | ["hs", "new", kind, k] =>
     if kinds.contains kind then ({ kind := kind, faulty := k != "0", live := [] }, "ok") else (s, "bad-op")
   | ["hs", "open", sid, _, mode] =>
-    if s.kind = "" ∨ (mode ≠ "fresh" ∧ mode ≠ "same") then (s, "bad-op") else
+    if s.kind = "" ∨ (mode ≠ "fresh" ∧ mode ≠ "same" ∧ mode ≠ "hibit") then (s, "bad-op") else
     match sid.toNat? with
     | some sid =>
       let s1 := if reuseRacy s.kind && s.seen.contains sid then { s with tainted := sid :: s.tainted } else s
@@ -68,6 +68,13 @@ def step (s : St) : List String → St × String
     match sid.toNat? with
     | some sid => (s.del sid, "ok")
     | none => (s, "bad-op")
+  | ["hs", "pingclose", sid, _, mode, k] =>
+    -- a write fails / is held, the peer's close arrives, the writer recovers: whatever the handler still
+    -- writes is sealed under a key the stream's ends held — never plaintext, never the all-zero key
+    if s.kind = "" ∨ (mode ≠ "fail" ∧ mode ≠ "stall") ∨ k.toNat?.isNone then (s, "bad-op") else
+    match sid.toNat? with
+    | some sid => (s.del sid, "closed 0 0 0")
+    | none => (s, "bad-op")
   | _ => (s, "bad-op")
 
 /-- Spec state: per stream, whether the LAST open was acknowledged (and the shell command not yet run). -/
@@ -80,8 +87,8 @@ structure Spec where
 
 def spec (s : Spec) (op out : List String) : Spec × String :=
   match op, out with
-  | ["hs", "icmpkx", _, _], ["icmpkx", "agree", a1, a2, "rt", rt, "leak", l] =>
-    if a1 ≠ "1" ∨ a2 ≠ "1" ∨ rt ≠ "1" then (s, "fail tunnel-ends-disagree icmp call sites")
+  | ["hs", "icmpkx", _, _], ["icmpkx", "agree", a1, a2, a3, "rt", rt, "leak", l] =>
+    if a1 ≠ "1" ∨ a2 ≠ "1" ∨ a3 ≠ "1" ∨ rt ≠ "1" then (s, "fail tunnel-ends-disagree icmp call sites")
     else if l ≠ "0" then (s, "fail plaintext-written-by-handler icmp")
     else (s, "ok")
   | ["hs", "icmpkx", _, _], _ => (s, "fail tunnel-ends-disagree icmp key exchange failed")
@@ -98,6 +105,14 @@ def spec (s : Spec) (op out : List String) : Spec × String :=
     match sid.toNat? with
     | some sid => ({ s with acked := s.acked.filter (·.1 != sid) }, "ok")
     | none => (s, "ok")
+  | ["hs", "pingclose", sid, _, _, _], ["closed", leak, unauth, zk] =>
+    let s' := match sid.toNat? with
+      | some sid => { s with acked := s.acked.filter (·.1 != sid) }
+      | none => s
+    if leak ≠ "0" then (s', "fail plaintext-written-by-handler after a close")
+    else if zk ≠ "0" then (s', "fail frame-sealed-under-all-zero-key after a close")
+    else if unauth ≠ "0" then (s', "fail frame-not-under-tunnel-key after a close")
+    else (s', "ok")
   | ["hs", "ping", sid, _], [r, leak, unauth] =>
     match sid.toNat? with
     | some sid =>
